@@ -37,6 +37,7 @@ type Stats struct {
 	Sizes              map[string]int `json:"sizes"`
 	Samples            []string       `json:"samples"`
 	ImplPanics         int            `json:"impl_panics"`
+	PerOp              bool           `json:"per_op"` // stateless component: every op is an independent case
 	Notes              []string       `json:"notes,omitempty"`
 	Extra              map[string]any `json:"extra,omitempty"`
 }
@@ -48,7 +49,7 @@ func New(path, component string) (*Recorder, error) {
 	}
 	return &Recorder{w: bufio.NewWriterSize(f, 1<<20), f: f, seen: map[uint64]struct{}{},
 		Stats: Stats{Component: component, OpKinds: map[string]int{}, Outcomes: map[string]int{},
-			Branches: map[string]int{}, Sizes: map[string]int{}, Extra: map[string]any{}}, maxSampl: 6}, nil
+			Branches: map[string]int{}, Sizes: map[string]int{}, Extra: map[string]any{}, Samples: []string{}}, maxSampl: 6}, nil
 }
 
 // Case starts a new case; params are the words after the case id on the `case` line.
@@ -82,7 +83,30 @@ func (r *Recorder) Op(op, out string) {
 	}
 	r.Stats.Outcomes[kind+"→"+okind]++
 	r.curOps = append(r.curOps, op)
+	if r.Stats.PerOp {
+		h := fnv.New64a()
+		h.Write([]byte(op))
+		k := h.Sum64()
+		if _, ok := r.seen[k]; !ok {
+			r.seen[k] = struct{}{}
+			r.Stats.DistinctCases++
+			if r.curNT {
+				r.Stats.DistinctNontrivial++
+				if len(r.Stats.Samples) < r.maxSampl || (len(r.Stats.Samples) < 3*r.maxSampl && r.Stats.DistinctNontrivial%997 == 0) {
+					smp := op + " → " + out
+					if len(smp) > 300 {
+						smp = smp[:300] + "…"
+					}
+					r.Stats.Samples = append(r.Stats.Samples, smp)
+				}
+			}
+		}
+		r.curNT = false
+	}
 }
+
+// PerOp switches to per-operation counting (stateless components): call Nontrivial BEFORE the Op it refers to.
+func (r *Recorder) PerOp() { r.Stats.PerOp = true }
 
 // Quiet records a line without counting it as an operation (state dumps).
 func (r *Recorder) Quiet(op, out string) { fmt.Fprintf(r.w, "%s | %s\n", op, out) }
@@ -102,6 +126,9 @@ func (r *Recorder) endCase() {
 		return
 	}
 	r.curOpen = false
+	if r.Stats.PerOp {
+		return
+	}
 	h := fnv.New64a()
 	h.Write([]byte(r.curHdr))
 	for _, o := range r.curOps {
@@ -116,8 +143,18 @@ func (r *Recorder) endCase() {
 	r.Stats.DistinctCases++
 	if r.curNT {
 		r.Stats.DistinctNontrivial++
-		if len(r.Stats.Samples) < r.maxSampl && len(r.curOps) <= 40 {
-			r.Stats.Samples = append(r.Stats.Samples, "case "+r.curHdr+" :: "+strings.Join(r.curOps, "; "))
+		if len(r.Stats.Samples) < r.maxSampl {
+			ops := r.curOps
+			more := ""
+			if len(ops) > 30 {
+				more = fmt.Sprintf("; … (+%d more ops)", len(ops)-12)
+				ops = ops[:12]
+			}
+			smp := "case " + r.curHdr + " :: " + strings.Join(ops, "; ") + more
+			if len(smp) > 1500 {
+				smp = smp[:1500] + "…"
+			}
+			r.Stats.Samples = append(r.Stats.Samples, smp)
 		}
 	}
 }
